@@ -780,6 +780,8 @@ func c17AssignmentsConserved(ctx *Ctx, r *Report) {
 			n++
 			// the rest is put back: append(cp.Assignments, <option.Assignments>[1:]...) or a loop over option.Assignments appending
 			restored := false
+			conditional := ""
+			parents := parentMap(fd)
 			ast.Inspect(lit.Body, func(m ast.Node) bool {
 				c, ok := m.(*ast.CallExpr)
 				if !ok || len(c.Args) < 2 {
@@ -799,10 +801,33 @@ func c17AssignmentsConserved(ctx *Ctx, r *Report) {
 					root, shape := moveShape(info, a, "Assignments", defs, 0)
 					if root == param && (shape == "[1:]" || shape == "all") && c.Ellipsis.IsValid() {
 						restored = true
+						// the only condition it may depend on is the number of assignments itself
+						for _, ctl := range controllingIfs(parents, fd, c) {
+							if ctl.Pos() < lit.Pos() || ctl.Pos() < rebuilt.Pos() {
+								continue // guards in front of the rebuild decide whether the action applies at all
+							}
+							onAssignments := false
+							ast.Inspect(ctl.Cond, func(q ast.Node) bool {
+								if e, ok := q.(ast.Expr); ok {
+									if r2, s2 := moveShape(info, e, "Assignments", defs, 0); r2 == param && s2 == "all" {
+										onAssignments = true
+									}
+								}
+								return true
+							})
+							if !onAssignments && conditional == "" {
+								conditional = exprString(ctl.Cond)
+							}
+						}
 					}
 				}
 				return true
 			})
+			if restored && conditional != "" {
+				r.Bad("effects/assignments-conserved", fmt.Sprintf("%s rebuilds %s.Assignments", ctx.FuncName(fobj), cp.Name()), rebuilt.Pos(),
+					fmt.Sprintf("%s appends the original's remaining assignments back only under `%s`, a condition that does not look at the assignments: an option with one argument and a constant added by add_assignment loses that constant — it no longer assigns the same targets", ctx.FuncName(fobj), conditional))
+				continue
+			}
 			r.Check(restored, "effects/assignments-conserved", fmt.Sprintf("%s rebuilds %s.Assignments", ctx.FuncName(fobj), cp.Name()), rebuilt.Pos(), "the assignments after the first one are appended back from the original option",
 				fmt.Sprintf("%s gives its copy of the option a fresh Assignments list and never appends the original's remaining assignments (`append(%s.Assignments, <original>.Assignments[1:]...)`): an option that add_assignment gave a second assignment loses it — it no longer assigns the same targets", ctx.FuncName(fobj), cp.Name()))
 		}
